@@ -29,6 +29,8 @@ static uint64_t g_urandom_pos = 0;
 static std::vector<int> g_urandom_script;
 static size_t g_urandom_script_pos = 0;
 static bool g_urandom_scripted = false;
+static bool g_urandom_fd0 = false; // /dev/urandom lives at descriptor 0 in this process
+static bool g_urandom_fd0_next = false;
 
 struct FakeDir {
   std::shared_ptr<Inode> ino;
@@ -297,6 +299,7 @@ void set_urandom(int mode, uint64_t seed) {
 }
 
 uint64_t urandom_consumed() { return g_urandom_pos; }
+void urandom_open_returns_fd0(bool enable) { g_urandom_fd0_next = enable; }
 void set_urandom_script(const std::vector<int>& script) {
   g_urandom_script = script;
   g_urandom_script_pos = 0;
@@ -673,7 +676,7 @@ int __real_unlink(const char*);
 int __real_rmdir(const char*);
 
 ssize_t __wrap_read(int fd, void* buf, size_t n) {
-  if (fd == URANDOM_FD) return urandom_read(buf, n);
+  if (fd == URANDOM_FD || (fd == 0 && g_urandom_fd0)) return urandom_read(buf, n);
   if (!is_virtual(fd)) {
     auto it = g_feeders.find(fd);
     if (it != g_feeders.end()) {
@@ -736,6 +739,11 @@ int __wrap_open(const char* path, int flags, ...) {
   }
   if (path && !strcmp(path, "/dev/urandom")) {
     // opened once per process by a function-local static of the code under test: not an event of a run
+    if (g_urandom_fd0_next) {
+      g_urandom_fd0_next = false;
+      g_urandom_fd0 = true;
+      return 0;
+    }
     return URANDOM_FD;
   }
   if (!is_sim_path(path)) return __real_open(path, flags, mode);
@@ -822,6 +830,10 @@ FILE* __wrap_fopen(const char* path, const char* mode) {
 
 int __wrap_close(int fd) {
   if (fd == URANDOM_FD) return 0;
+  if (fd == 0 && g_urandom_fd0) {
+    g_urandom_fd0 = false;
+    return 0;
+  }
   if (!is_virtual(fd)) return __real_close(fd);
   World& w = g_world;
   w.calls.closes++;
